@@ -88,7 +88,13 @@ impl Check for C19 {
         let o2 = SessionOpts { profile: p2, max_cols: mc, max_rows: mr };
         let mut cont = gen_events_anycut(r, &cfg2, &o2, DrainPolicy::AlwaysAll, &mut gs);
         let ris = "\x1bc".to_string();
-        match r.below(4) {
+        match r.below(5) {
+            4 => {
+                // C0 controls are executed inside an escape sequence without ending it
+                let c0 = *r.pick(&["\x00", "\x07", "\n", "\r", "\x08", "\x00\x00", "\x1f"]);
+                evs.push(Event::FeedStr { s: format!("\x1b{}c", c0), drain: Drain::All });
+                st.bump("ris_with_c0_inside");
+            }
             0 => evs.push(Event::FeedStr { s: ris, drain: Drain::All }),
             1 => evs.push(Event::Feed { s: ris }),
             2 => {
